@@ -98,6 +98,16 @@ def gen_C02(tier, rng):
                 if rng.randrange(8) == 0:
                     o = rng.choice(p["std"])
                     yield (f"hctxstd.{alg} {o} {hx(key if rng.randrange(2) else b'')} {prog}", f"{alg}.exh{d}.std")
+        # re-keying transitions between every pair of key classes (empty / 1 byte / max-1 / max) through reset_with_key (k)
+        # and finalize_reset_with_key (G), from a fresh, a partially filled and a just-finalised context
+        kcls = [b"", rng.rbytes(1), rng.rbytes(mx - 1), rng.rbytes(mx)]
+        for k0 in kcls:
+            for k1 in kcls:
+                m1 = rng.rbytes(B + 3).hex()
+                for api in ("hctx", "hctxdyn"):
+                    for pre in ("", f"u{m1};", "F;"):
+                        for t in ("k", "G"):
+                            yield (f"{api}.{alg} {mx} {hx(k0)} {pre}{t}{k1.hex()};u{m1};d;r;u{m1};d", f"{alg}.rekey-pairs")
         # random histories of 5..40 operations
         cnt = 300 if quick else 3000
         for i in range(cnt):
